@@ -47,8 +47,12 @@ func rejects(info *types.Info, body []ast.Stmt) bool {
 }
 
 type guardSite struct {
-	cond ast.Expr
-	pos  token.Pos
+	cond  ast.Expr
+	pos   token.Pos
+	pkg   *packages.Package // where cond lives (a helper predicate may live elsewhere)
+	owner *types.Func
+	neg   bool // the document is rejected when cond is false
+	more  []guardSite // further conditions of the same helper: the site stands for their disjunction
 }
 
 // guardsOf lists the rejecting if-statements that lie on the straight path of
@@ -59,12 +63,12 @@ func guardsOf(info *types.Info, body []ast.Stmt) []guardSite {
 		switch s := st.(type) {
 		case *ast.IfStmt:
 			if s.Else == nil && rejects(info, s.Body.List) {
-				out = append(out, guardSite{s.Cond, s.Pos()})
+				out = append(out, guardSite{cond: s.Cond, pos: s.Pos()})
 			}
 		case *ast.RangeStmt:
 			for _, st2 := range s.Body.List {
 				if is, ok := st2.(*ast.IfStmt); ok && is.Else == nil && rejects(info, is.Body.List) {
-					out = append(out, guardSite{is.Cond, is.Pos()})
+					out = append(out, guardSite{cond: is.Cond, pos: is.Pos()})
 				}
 			}
 		}
@@ -72,8 +76,104 @@ func guardsOf(info *types.Info, body []ast.Stmt) []guardSite {
 	return out
 }
 
+// helperGuards: the rejecting conditions contributed by a boolean helper that a
+// guard calls: `if !ok(x) { reject }` rejects whenever ok returns false, i.e.
+// on each `if C { return false }` of ok and when its final expression is false;
+// helpers called on the elements of a range loop are followed too.
+func (p *Program) helperGuards(h *types.Func, rejectWhen bool, depth int) []guardSite {
+	fd, pkg := p.Decl(h), p.DeclPkg(h)
+	if fd == nil || depth > 3 {
+		return nil
+	}
+	info := pkg.TypesInfo
+	var out []guardSite
+	isConst := func(e ast.Expr, v bool) bool {
+		tv, ok := info.Types[e]
+		return ok && tv.Value != nil && tv.Value.String() == fmt.Sprint(v)
+	}
+	var fromCond func(cond ast.Expr, pos token.Pos, when bool)
+	fromCond = func(cond ast.Expr, pos token.Pos, when bool) {
+		// when=true: reject if cond holds; when=false: reject if cond fails
+		c := ast.Unparen(cond)
+		if u, ok := c.(*ast.UnaryExpr); ok && u.Op == token.NOT {
+			fromCond(u.X, pos, !when)
+			return
+		}
+		if call, ok := c.(*ast.CallExpr); ok {
+			if callee, ok := typeutil.Callee(info, call).(*types.Func); ok && p.IsRepoPkg(callee.Pkg()) && p.Decl(callee) != nil {
+				if b, ok := callee.Type().(*types.Signature).Results().At(0).Type().Underlying().(*types.Basic); ok && b.Kind() == types.Bool {
+					out = append(out, p.helperGuards(callee, when, depth+1)...)
+					return
+				}
+			}
+		}
+		out = append(out, guardSite{cond: cond, pos: pos, pkg: pkg, owner: h, neg: !when})
+	}
+	var walk func(list []ast.Stmt)
+	walk = func(list []ast.Stmt) {
+		for _, st := range list {
+			switch s := st.(type) {
+			case *ast.IfStmt:
+				if s.Else == nil && len(s.Body.List) == 1 {
+					if ret, ok := s.Body.List[0].(*ast.ReturnStmt); ok && len(ret.Results) == 1 && isConst(ret.Results[0], rejectWhen) {
+						fromCond(s.Cond, s.Pos(), true)
+					}
+				}
+			case *ast.RangeStmt:
+				walk(s.Body.List)
+			case *ast.ForStmt:
+				walk(s.Body.List)
+			case *ast.ReturnStmt:
+				if len(s.Results) == 1 && !isConst(s.Results[0], true) && !isConst(s.Results[0], false) {
+					fromCond(s.Results[0], s.Pos(), rejectWhen)
+				}
+			}
+		}
+	}
+	walk(fd.Body.List)
+	return out
+}
+
+// expandGuards replaces guards that merely call a boolean helper by the helper's own conditions.
+func (p *Program) expandGuards(pkg *packages.Package, owner *types.Func, gs []guardSite) []guardSite {
+	var out []guardSite
+	for _, g := range gs {
+		g.pkg, g.owner = pkg, owner
+		cond := ast.Unparen(g.cond)
+		when := true
+		if u, ok := cond.(*ast.UnaryExpr); ok && u.Op == token.NOT {
+			cond, when = ast.Unparen(u.X), false
+		}
+		if call, ok := cond.(*ast.CallExpr); ok {
+			if callee, ok := typeutil.Callee(pkg.TypesInfo, call).(*types.Func); ok && p.IsRepoPkg(callee.Pkg()) && p.Decl(callee) != nil {
+				if res := callee.Type().(*types.Signature).Results(); res.Len() == 1 {
+					if b, ok := res.At(0).Type().Underlying().(*types.Basic); ok && b.Kind() == types.Bool {
+						hs := p.helperGuards(callee, when, 0)
+						out = append(out, hs...)
+						// a helper may split one rule over several tests: also offer their disjunction, per helper
+						byOwner := map[*types.Func][]guardSite{}
+						for _, h := range hs {
+							byOwner[h.owner] = append(byOwner[h.owner], h)
+						}
+						for _, group := range byOwner {
+							if len(group) > 1 {
+								comb := group[0]
+								comb.more = group[1:]
+								out = append(out, comb)
+							}
+						}
+						continue
+					}
+				}
+			}
+		}
+		out = append(out, g)
+	}
+	return out
+}
+
 // condRow tabulates a guard condition with the E8 engine.
-func (p *Program) condHolds(pkg *packages.Package, owner *types.Func, cond ast.Expr, spec func(a *e8assign, n *e8names, got bool) string, atoms []string) (string, bool) {
+func (p *Program) condHolds(pkg *packages.Package, owner *types.Func, cond ast.Expr, neg bool, more []guardSite, spec func(a *e8assign, n *e8names, got bool) string, atoms []string) (string, bool) {
 	var verdict string
 	decided := true
 	row := &e8row{id: "cond", fn: owner, atoms: append([]string{"0"}, atoms...),
@@ -88,8 +188,13 @@ func (p *Program) condHolds(pkg *packages.Package, owner *types.Func, cond ast.E
 		},
 		run: func(in *e8interp) *e8out {
 			fr := newFrame(pkg)
-			v := in.eval(fr, cond)
-			return &e8out{returned: true, ret: []*val{{k: kBool, b: in.boolOf(v)}}, fr: fr}
+			res := in.boolOf(in.eval(fr, cond)) != neg
+			for _, m := range more {
+				// evaluated in the same frame: the helper's parameters are the same inputs
+				r := in.boolOf(in.eval(fr, m.cond)) != m.neg
+				res = res || r
+			}
+			return &e8out{returned: true, ret: []*val{{k: kBool, b: res}}, fr: fr}
 		},
 		spec: func(a *e8assign, n *e8names, out *e8out) string {
 			// integrality: skip order types that put an integer atom strictly between consecutive constants
@@ -232,13 +337,13 @@ func (p *Program) ruleStructuralMinima(c *Check) {
 			c.Undecided("E7.V1", "anchor:parser", "", "parser body not found")
 			continue
 		}
-		guards := guardsOf(cs.fb.pkg.TypesInfo, cs.fb.body)
+		guards := p.expandGuards(cs.fb.pkg, cs.fb.fn, guardsOf(cs.fb.pkg.TypesInfo, cs.fb.body))
 		for _, nd := range cs.needs {
 			con := cs.fb.name + ": " + nd.what
 			found := false
 			var nearest string
 			for _, g := range guards {
-				msg, decided := p.condHolds(cs.fb.pkg, cs.fb.fn, g.cond, nd.spec, nd.atoms)
+				msg, decided := p.condHolds(g.pkg, g.owner, g.cond, g.neg, g.more, nd.spec, nd.atoms)
 				if decided && msg == "" {
 					c.OK("E7.V1", con, p.Pos(g.pos), "rejected by the guard `"+types.ExprString(g.cond)+"`, which holds exactly when the document violates the rule")
 					found = true
@@ -254,49 +359,150 @@ func (p *Program) ruleStructuralMinima(c *Check) {
 			}
 		}
 	}
-	// positions: at least two ordinates; non-numeric ordinates rejected (null only in Point/MultiPoint)
+	// positions: the per-ordinate scan, run abstractly for every kind of JSON value and every fill level
+	gj := p.ByPath["github.com/tidwall/gjson"]
+	constOf := func(name string) string {
+		if gj == nil {
+			return ""
+		}
+		if k, ok := gj.Types.Scope().Lookup(name).(*types.Const); ok {
+			return k.Val().ExactString()
+		}
+		return ""
+	}
+	kNumber, kNull := constOf("Number"), constOf("Null")
 	for _, fname := range []string{"parseJSONPointCoords", "parseJSONLineStringCoords", "parseJSONPolygonCoords"} {
 		fn := p.Func("geojson", fname)
 		fd, pkg := p.Decl(fn), p.DeclPkg(fn)
-		if fd == nil {
-			c.Undecided("E7.V1", "anchor:geojson."+fname, "", "coordinate parser not found")
+		con := "geojson." + fname
+		if fd == nil || kNumber == "" {
+			c.Undecided("E7.V1", "anchor:"+con, "", "coordinate parser (or gjson.Number) not found")
 			continue
 		}
 		info := pkg.TypesInfo
-		var countGuard, typeGuard, nullOK bool
-		var stopAt4 bool
+		// the ordinate scan: the innermost function literal that inspects .Type of its value
+		var lit *ast.FuncLit
 		ast.Inspect(fd.Body, func(n ast.Node) bool {
-			is, ok := n.(*ast.IfStmt)
-			if !ok {
-				return true
-			}
-			cond := types.ExprString(is.Cond)
-			switch {
-			case (cond == "count < 2" || cond == "2 > count" || cond == "count <= 1") && rejects(info, is.Body.List):
-				countGuard = true
-			case strings.Contains(cond, ".Type != gjson.Number"):
-				// the body must reject unless (point parser) the value is null
-				inner := is.Body.List
-				if len(inner) > 0 {
-					if nis, ok := inner[0].(*ast.IfStmt); ok && strings.Contains(types.ExprString(nis.Cond), ".Type == gjson.Null") {
-						nullOK = true
-						inner = inner[1:]
-					}
+			if fl, ok := n.(*ast.FuncLit); ok {
+				if mentions(fl.Body, func(m ast.Node) bool {
+					sel, ok := m.(*ast.SelectorExpr)
+					return ok && sel.Sel.Name == "Type"
+				}) {
+					lit = fl // keeps the innermost (visited last)
 				}
-				if rejects(info, inner) {
-					typeGuard = true
-				}
-			case cond == "count == 4" || cond == "count >= 4":
-				stopAt4 = true
 			}
 			return true
 		})
-		con := "geojson." + fname
-		c.Expect(countGuard, "E7.V1", con+": a position has at least two ordinates", p.declPos(fn), "count < 2 is rejected", "no guard rejects a position with fewer than two ordinates")
-		c.Expect(typeGuard, "E7.V1", con+": ordinates are numbers", p.declPos(fn), "a non-numeric ordinate among the first four is rejected", "no guard rejects a non-numeric ordinate")
-		c.Expect(stopAt4, "E7.V1", con+": at most four ordinates are read", p.declPos(fn), "reading stops at the fourth ordinate", "the ordinate loop has no bound at four (the nums array has four slots)")
+		if lit == nil {
+			// a parser may hand its positions to one of its siblings, which is checked in its own right
+			delegate := ""
+			ast.Inspect(fd.Body, func(n ast.Node) bool {
+				if call, ok := n.(*ast.CallExpr); ok {
+					if callee, ok := typeutil.Callee(info, call).(*types.Func); ok && callee != fn && strings.HasSuffix(callee.Name(), "Coords") && p.IsRepoPkg(callee.Pkg()) {
+						delegate = callee.Name()
+					}
+				}
+				return true
+			})
+			if delegate != "" && (delegate == "parseJSONLineStringCoords" || delegate == "parseJSONPolygonCoords") {
+				c.OK("E7.V1", con+": ordinates", p.declPos(fn), "positions are parsed by "+delegate+", which is checked itself (and does not admit null)")
+			} else {
+				c.Undecided("E7.V1", con+": ordinates", p.declPos(fn), "the per-ordinate scan was not found")
+			}
+			continue
+		}
 		wantNull := fname == "parseJSONPointCoords"
-		c.Expect(nullOK == wantNull, "E7.V1", con+": null ordinates", p.declPos(fn), "null is accepted exactly in Point/MultiPoint positions", "null ordinates are accepted/rejected in the wrong parser (allowed only in Point and MultiPoint positions)")
+		row := &e8row{id: con + ": ordinates", fn: fn, atoms: []string{kNumber, kNull, "4"},
+			group: func(string) int { return 0 },
+			what:  "per ordinate: numbers are stored and counted, null only in Point/MultiPoint positions, anything else is rejected with an error, and nothing is read beyond the fourth ordinate",
+			run: func(in *e8interp) *e8out {
+				fr := newFrame(pkg)
+				i := 0
+				for _, f := range lit.Type.Params.List {
+					for _, nm := range f.Names {
+						if o := info.Defs[nm]; o != nil {
+							fr.vars[o] = in.newInput(fmt.Sprintf("q%d", i), o.Type())
+						}
+						i++
+					}
+				}
+				out := &e8out{fr: fr}
+				r := in.runBody(fr, lit.Body.List)
+				if r != nil {
+					out.returned, out.ret = true, r.vals
+				}
+				return out
+			},
+			pre: func(a *e8assign, n *e8names) bool {
+				cnt := n.match(`^[a-zA-Z_][a-zA-Z_0-9]*$`)
+				for _, s := range cnt {
+					if a.has(s, "4", kNull) && (a.R(s) > a.R("4") || a.R(s) < a.R(kNull)) {
+						return false // 0 <= count <= 4
+					}
+				}
+				return true
+			},
+			spec: func(a *e8assign, n *e8names, out *e8out) string {
+				ty := n.match(`\.Type$`)
+				cnt := n.match(`^[a-zA-Z_][a-zA-Z_0-9]*$`)
+				if len(ty) != 1 || len(cnt) != 1 {
+					return "the scan does not test the value's JSON type and an ordinate counter"
+				}
+				isNum := a.R(ty[0]) == a.R(kNumber)
+				isNull := a.R(ty[0]) == a.R(kNull)
+				full := a.R(cnt[0]) == a.R("4")
+				got, ok := retBool(out)
+				if !ok {
+					return "the scan does not return a boolean"
+				}
+				// the captured error variable
+				errSet := false
+				var counter *val
+				for o, v := range out.fr.vars {
+					if o == nil {
+						continue
+					}
+					if o.Type().String() == "error" && v != nil && v.name != o.Name() {
+						errSet = true
+					}
+					if o.Name() == cnt[0] {
+						counter = v
+					}
+				}
+				counted := counter != nil && counter.k == kScalar && counter.name == "("+cnt[0]+"+1)"
+				switch {
+				case full:
+					if got || errSet || counted {
+						return "a fifth ordinate is not simply skipped (reading must stop at four without an error)"
+					}
+				case isNum || (isNull && wantNull):
+					if !got || errSet || !counted {
+						return "a numeric ordinate" + map[bool]string{true: " (or null in a point)", false: ""}[wantNull] + " is not accepted and counted"
+					}
+				default:
+					if got || !errSet {
+						what := "a non-numeric ordinate"
+						if isNull {
+							what = "a null ordinate (allowed only in Point/MultiPoint positions)"
+						}
+						return what + " is not rejected with an error"
+					}
+				}
+				return ""
+			}}
+		p.runE8(c, row)
+		// at least two ordinates
+		countGuard := false
+		ast.Inspect(fd.Body, func(n ast.Node) bool {
+			if is, ok := n.(*ast.IfStmt); ok {
+				cond := strings.ReplaceAll(types.ExprString(is.Cond), " ", "")
+				if (cond == "count<2" || cond == "2>count" || cond == "count<=1") && rejects(info, is.Body.List) {
+					countGuard = true
+				}
+			}
+			return true
+		})
+		c.Expect(countGuard, "E7.V1", con+": a position has at least two ordinates", p.declPos(fn), "count < 2 is rejected", "no guard rejects a position with fewer than two ordinates")
 	}
 }
 
